@@ -5,8 +5,8 @@ import json, os, shutil, subprocess, sys, time
 seed, prop = sys.argv[1], sys.argv[2]
 WT = "/tmp/wt/verify"
 env = dict(os.environ, CARGO_TARGET_DIR="/tmp/wt/verify_target", CARGO_NET_OFFLINE="true")
-def sh(cmd, cwd=None, timeout=3600):
-    p = subprocess.run(cmd, shell=True, cwd=cwd, env=env, stdout=subprocess.PIPE, stderr=subprocess.STDOUT, text=True, timeout=timeout)
+def sh(cmd, cwd=None, timeout=3600, plain=False):
+    p = subprocess.run(cmd, shell=True, cwd=cwd, env=(os.environ if plain else env), stdout=subprocess.PIPE, stderr=subprocess.STDOUT, text=True, timeout=timeout)
     return p.returncode, p.stdout
 meta = {"property": prop, "seed": os.path.basename(os.path.dirname(seed + "/")), "ran": []}
 if "--no-confirm" not in sys.argv:
@@ -38,7 +38,7 @@ res = {}
 try:
     for p in prop.split(","):
         t0 = time.time()
-        rc, out = sh(f"./check {p} --tier quick", cwd="/verif", timeout=3600)
+        rc, out = sh(f"./check {p} --tier quick", cwd="/verif", timeout=3600, plain=True)
         viol = [l for l in out.splitlines() if l.startswith("VIOLATION")]
         rej = [l for l in out.splitlines() if "reject:" in l][:3]
         res[p] = {"exit": rc, "violations": len(viol), "wall_s": round(time.time() - t0, 1)}
